@@ -13,28 +13,28 @@ PROBE_NOTE = "Trusted base: rustc 1.95 decides acceptance of every generated pro
 
 CHECKS = {
     "C01": dict(engine="explorer", cat="model_checking", ref="5/C01",
-                text="Every reachable state and transition of the bounded scopes (full 2-object alphabet, 3-object chains, trace-fault scope, dynamic-root scope with weak upgrades) is executed on the real Arena; after every operation the drop log and the allocator log are compared with shadow reachability and the real graph is traversed in lock-step with the shadow.",
+                text="Every reachable state and transition of the bounded scopes (full 2-object alphabet, 3-object chains, trace-fault scope, dynamic-root scope with weak upgrades) is executed on the real Arena; after every operation the drop log and the allocator log are compared with shadow reachability and the real graph is traversed in lock-step with the shadow. The harness root has a destructor that asks the tracking allocator whether everything it points to is still allocated (every execution ends with drop(Arena)); a grid re-types the root through map_root / try_map_root (non-tracing <-> pointer-holding root types) around every operation sequence up to length 4 (thorough 5).",
                 tech="explicit-state BFS over the real Arena by re-execution, closed scopes, shadow-model oracle"),
     "C02": dict(engine="explorer", cat="model_checking", ref="5/C02",
                 text="In every distinct state of the scopes a probe runs finish_cycle twice and compares survivors and Gc count with the shadow (exactly the reachable set plus weakly referenced shells), then clears the weak references and requires the shells to be released by one more cycle.",
                 tech="explicit-state BFS + per-state probe (2x finish_cycle) against shadow reachability"),
     "C03": dict(engine="explorer", cat="model_checking", ref="5/C03",
-                text="Every callback of every transition is bracketed (no destructor run, no Gc block released between entry and exit) and in every state a probe enters each callback kind under 1e9 artificial debt, allocates temporaries, upgrades all weak pointers and re-reads them at exit.",
+                text="Every callback of every transition is bracketed (no destructor run, no Gc block released between entry and exit) and in every state a probe enters each callback kind under 1e9 artificial debt, allocates temporaries, upgrades all weak pointers and re-reads them at exit. Callbacks that mutate and then unwind are bracketed too, and the probe nests rootless_mutate in the callback and in itself (the end of the inner call destructs exactly the inner call's allocations).",
                 tech="explicit-state BFS + per-state probe (callbacks under huge debt), drop/dealloc log bracketing"),
     "C04": dict(engine="explorer", cat="model_checking", ref="5/C04",
-                text="In every distinct state (asleep, mid-mark, marked, mid-sweep at every cursor position, shells present) a probe drops the arena: every id destructed exactly once, every Gc block released once with its allocation layout, no arena allocation outstanding, retained Metrics reads 0. Double destruction / double free / layout mismatch are also checked on every transition.",
+                text="In every distinct state (asleep, mid-mark, marked, mid-sweep at every cursor position, shells present) a probe drops the arena: every id destructed exactly once, every Gc block released once with its allocation layout, no arena allocation outstanding, retained Metrics reads 0. Double destruction / double free / layout mismatch are also checked on every transition. The layout grid of C17 and the builder grid of C18 run as further stages (release layout for every value layout; destructor counts of slice / header allocations).",
                 tech="explicit-state BFS + per-state probe (drop arena), tracking allocator"),
     "C05": dict(engine="explorer", cat="model_checking", ref="5/C05",
                 text="In every state every reachable weak pointer is queried (block still allocated, is_dropped == drop log, upgrade Some => undestructed, reachable => Some, None => destructed or Sweeping); upgrade-and-store / upgrade-and-stash are transitions so a stored result is followed through all later collection steps by the safety oracle.",
                 tech="explicit-state BFS, weak-query monitor in every state, upgrade-store transitions"),
     "C06": dict(engine="explorer", cat="model_checking", ref="5/C06",
-                text="Every sanctioned barrier path (Gc::write/unlock, Gc<Lock>/Gc<RefLock>/Gc<OnceLock> setters, mutate_root/map_root/try_map_root, stash, the four raw barrier forms incl. parent-only with two adoptions and child-only with two parents, the three weak forms, barrier-only calls) is a transition from every state; all later interleavings of collector increments follow by exploration under the safety oracle; C02 probe detects barrier side effects that retain garbage.",
+                text="Every sanctioned barrier path (Gc::write/unlock, Gc<Lock>/Gc<RefLock>/Gc<OnceLock> setters, mutate_root/map_root/try_map_root, stash, the four raw barrier forms incl. parent-only with two adoptions and child-only with two parents, the three weak forms, barrier-only calls) is a transition from every state; all later interleavings of collector increments follow by exploration under the safety oracle; C02 probe detects barrier side effects that retain garbage. Also: callbacks that adopt and unwind, weak pointers to unreachable targets changing holders under the explicit weak barriers, get_or_init on an empty OnceLock with a fresh value, and the root re-typing grid.",
                 tech="explicit-state BFS over barrier-path alphabet, closed scopes"),
     "C07": dict(engine="explorer", cat="model_checking", ref="5/C07",
                 text="Finalize / resurrect operations (through finish_marking and through zero-debt mark_debt) in every state of the finalization scopes with non-wrapping collector calls: is_dead vs shadow reachability (exact when no mutation since marking began), resurrect result vs drop log, phase after resurrection, and protection of the strong closure of resurrected objects until the cycle ends.",
                 tech="explicit-state BFS with finalization alphabet, per-cycle shadow bookkeeping"),
     "C08": dict(engine="explorer", cat="model_checking", ref="5/C08",
-                text="Contract table (phase before, call, debt class zero/epsilon/huge) -> allowed (phase after, MarkedArena returned) checked on every transition and by a probe performing each API call with each debt class from every state.",
+                text="Contract table (phase before, call, debt class zero/epsilon/huge) -> allowed (phase after, MarkedArena returned) checked on every transition and by a probe performing each API call with each debt class from every state. Root operations also go through map_root / try_map_root, and the root re-typing grid checks the protocol across a change of the root type.",
                 tech="explicit-state BFS + per-state probe of every API call x debt class"),
     "C10": dict(engine="explorer", cat="model_checking", ref="5/C10",
                 text="Metrics scope with the integer counters in the canonical state (non-tracing leaf objects, trace faults), barrier scope and a depth-bounded natural-debt scope with adjust_debt operations: count vs allocator, debt sign/finite/zero-when-empty, adjust exactness, debt never decreased by callbacks beyond forward-barrier mark credit, no panic (overflow checks and debug assertions are on).",
@@ -57,7 +57,7 @@ CHECKS = {
     "C12": dict(engine="probes", cat="exploration", ref="5/C12", note=PROBE_NOTE + " Five root-type shapes of the implied-'static family are listed as known findings (rustc #25860 family).",
                 text="Exhaustive enumeration of the brand-escape grammar (13 branded things x 17 escape routes x 8 API entry points, cross-arena uses under nested mutate / finalize, re-entrant collection calls, shrink/grow variance by value and behind references for 18 types, Send/Sync for 18 types incl. arenas with plain-data roots, root-type shapes implying 'gc: 'static): every negative program must be rejected by rustc, every positive twin accepted; accepted negatives are run to show the consequence.",
                 tech="exhaustive enumeration of a bounded program grammar, compiler verdict per program, execution of accepted programs"),
-    "C13": dict(engine="probes", cat="exploration", ref="5/C13", note=PROBE_NOTE,
+    "C13": dict(engine="probes", cat="exploration", ref="5/C13", note=PROBE_NOTE + " Two barrier bypasses under an implied 'gc: 'static root shape are listed as known findings (same root cause as C12's).",
                 text="Typed term grammar (Write sources x 28 holder fields x projection chains up to depth 4/5 x sinks), typed under an over-approximate model so that impls that do not exist today are probed too; every program rustc accepts is run with the holder black in a fully marked arena and a fresh white child, violation = child reachable through the holder but destructed; fixed probes for forged Write, unsafe accessors, Cell/RefCell under derive with every mode/bound/require_static combination, user Unlock/DerefWrite/IndexWrite impls and user index types; the sanctioned setters are run as controls.",
                 tech="exhaustive enumeration of a typed program grammar; compiler verdict; accepted programs executed under a reachable-but-destructed oracle"),
     "C15": dict(engine="probes", cat="exploration", ref="5/C15", note=PROBE_NOTE,
@@ -70,7 +70,7 @@ CHECKS = {
                 text="Run-time half (grid): all chains up to length 2 (thorough 3) of identity-typed conversions on a sized value x 5 terminal conversions, chains up to 3 for slice / str / header+slice / unsized array / RefLock<dyn>, converted weak pointers, upgrade+convert+stash in every collector phase with the handle as the only root, ZstCache<1|8|64> x alignments x entry points: identity, dereference, survival through two cycles, single destruction. Rejection half (probes): every public unsafe fn / unsafe trait used without unsafe, builders' assume_init for uninhabited and private types, safe conjuring attempts.",
                 tech="exhaustive enumeration of conversion chains on the real code + enumeration of conjuring programs with compiler verdict"),
     "C20": dict(engine="explorer", cat="model_checking", ref="5/C20",
-                text="Product exploration of two real arenas with different pacing on one thread (allocation, links, weak pointers, handles, collector steps, dropping either arena): after every operation on one arena the other arena's canonical bookkeeping (incl. colours), drop log, Gc count, debt bits, phase and handles are bit-identical, its own oracles still hold, foreign handles are refused (also stale handles meeting recycled addresses after an arena died), and C02/C04 probes hold per arena in every product state. Compile-time half: 57 programs - every brand-preserving conversion applied to a pointer of arena 1 and used with arena 2 under nested callbacks, plus the cross-arena part of the C12 grammar - must be rejected (twins within one arena compile).",
+                text="Product exploration of two real arenas with different pacing on one thread (allocation, links, weak pointers, handles, collector steps, dropping either arena): after every operation on one arena the other arena's canonical bookkeeping (incl. colours), drop log, Gc count, debt bits, phase and handles are bit-identical, its own oracles still hold, foreign handles are refused (also stale handles meeting recycled addresses after an arena died), and C02/C04 probes hold per arena in every product state. Compile-time half: 57 programs - every brand-preserving conversion applied to a pointer of arena 1 and used with arena 2 under nested callbacks, plus the cross-arena part of the C12 grammar - must be rejected (twins within one arena compile). Handles may be owned by heap values of the other arena (released when those are destructed), and a lifecycle grid requires a newly created arena to behave exactly as on a pristine thread after every sequence of <= 2 earlier arena lifecycles (pacing x outstanding Metrics clone x fate).",
                 tech="explicit-state BFS over the product of two real arenas, non-interference oracle; enumeration of cross-arena programs with compiler verdict"),
 }
 
